@@ -888,3 +888,126 @@ def replay(ctx, rep):
     hit = [f for f in fails if not sig or f['clause'] == sig.get('clause')]
     print('REPRODUCED' if hit else 'not reproduced')
     return 1 if hit else 0
+
+
+# ---------------------------------------------------------------------------
+# a resource removed from the resource set and got again (e.g. it changed on disk): references followed
+# afterwards reach the CURRENT resource of the set (oracle on the implementation only)
+
+def reload_scenarios(ctx, out):
+    import tempfile as _tf
+    from pyecore.ecore import EClass, EAttribute, EReference, EString, EPackage
+    from pyecore.resources import ResourceSet, URI
+    from pyecore.resources.json import JsonResource
+    rng = common.rng_for(ctx.seed, 'C14:reload')
+    n = 16 if ctx.tier != 'thorough' else 300
+    cnt = 0
+    for it in range(n):
+        fmt = 'xmi' if it % 2 == 0 else 'json'
+        pkg = EPackage('p', nsURI=f'http://verif/c14/reload/{it}', nsPrefix='p')
+        Node = EClass('Node')
+        Node.eStructuralFeatures.append(EAttribute('name', EString))
+        Node.eStructuralFeatures.append(EReference('kids', Node, upper=-1, containment=True))
+        Node.eStructuralFeatures.append(EReference('one', Node))
+        Node.eStructuralFeatures.append(EReference('two', Node))
+        pkg.eClassifiers.append(Node)
+
+        def new_rset():
+            rs = ResourceSet()
+            rs.metamodel_registry[pkg.nsURI] = pkg
+            if fmt == 'json':
+                rs.resource_factory['json'] = lambda uri: JsonResource(uri)
+            return rs
+        layout = rng.choice(['same-dir', 'sibling-dirs', 'nested'])
+        nk = rng.randrange(2, 5)
+        links = [(rng.randrange(0, nk + 1), rng.choice(['one', 'two']), rng.randrange(0, nk + 1)) for _ in range(rng.randrange(2, 5))]
+        follow_first = rng.randrange(len(links))
+        edit = rng.random() < 0.6
+        how_get = rng.choice(['uri', 'str'])
+        hist = {'format': fmt, 'layout': layout, 'kids': nk, 'links': links, 'followed_before': follow_first, 'edited_on_disk': edit,
+                'get_by': how_get}
+        case = {'scenario': 'reload', 'seed': ctx.seed, 'tier': ctx.tier, 'history': hist}
+        sig = {'property': 'C14', 'clause': None, 'scenario': 'reload', 'format': fmt}
+        with _tf.TemporaryDirectory() as tmp:
+            da, db = {'same-dir': ('', ''), 'sibling-dirs': ('d1', 'd2'), 'nested': ('', 'sub/deep')}[layout]
+            os.makedirs(os.path.join(tmp, da), exist_ok=True)
+            os.makedirs(os.path.join(tmp, db), exist_ok=True)
+            pa, pb = os.path.join(tmp, da, f'a.{fmt}'), os.path.join(tmp, db, f'b.{fmt}')
+
+            def tree(nm):
+                r = Node(name=nm)
+                for i in range(nk):
+                    r.kids.append(Node(name=f'{nm}.k{i}'))
+                return r
+
+            def pick(root, i):
+                return root if i == nk else root.kids[i]
+            rs = new_rset()
+            a, b = tree('a'), tree('b')
+            ra, rb = rs.create_resource(URI(pa)), rs.create_resource(URI(pb))
+            ra.append(a)
+            rb.append(b)
+            seen = set()
+            real_links = []
+            for (i, f, j) in links:
+                if (i, f) in seen:
+                    continue
+                seen.add((i, f))
+                setattr(pick(a, i), f, pick(b, j))
+                real_links.append((i, f, j))
+            try:
+                ra.save()
+                rb.save()
+                rs = new_rset()
+                la = rs.get_resource(URI(pa)).contents[0]
+                i0, f0, j0 = real_links[follow_first % len(real_links)]
+                getattr(pick(la, i0), f0).name            # follows one reference: b is loaded on demand
+                old_b = rs.get_resource(URI(pb) if how_get == 'uri' else pb)
+                if edit:
+                    other = new_rset()
+                    ob = other.get_resource(URI(pb))
+                    for k in ob.contents[0].kids:
+                        k.name = k.name + ' (edited)'
+                    ob.save()
+                rs.remove_resource(old_b)
+                still = [str(k) for k, v in rs.resources.items() if v is old_b]
+                if still:
+                    sig['clause'] = 'removed-resource-still-registered'
+                    out.fail(sig, f'after remove_resource the resource set still maps {still} to the removed resource', case)
+                    continue
+                new_b = rs.get_resource(URI(pb))
+                cnt += 1
+                for (i, f, j) in real_links:
+                    if (i, f, j) == (i0, f0, j0):
+                        continue          # followed before the reload: it legitimately keeps the old object
+                    ref = getattr(pick(la, i), f)
+                    target = pick(new_b.contents[0], j)
+                    got = ref.force_resolve() if hasattr(ref, 'force_resolve') else ref
+                    if got is not target:
+                        sig['clause'] = 'reference-reaches-a-detached-copy'
+                        out.fail(sig, f'a{"" if i == nk else f".kids[{i}]"}.{f}, first followed after b was removed and got again, '
+                                      f'reaches {got.name!r} in a resource that is {"not " if got.eResource is not new_b else ""}the '
+                                      f'resource set\'s b (expected the instance {target.name!r} of the current b)', case)
+                        break
+            except Exception as e:  # noqa
+                sig['clause'] = 'reload-raised'
+                out.fail(sig, f'{type(e).__name__}: {e}', case)
+    out.coverage['reload_scenarios'] = cnt
+
+
+_run_main = run
+
+
+def run(ctx, out):   # noqa: F811
+    _run_main(ctx, out)
+    reload_scenarios(ctx, out)
+
+
+_replay_main = replay
+
+
+def replay(ctx, rep):   # noqa: F811
+    if rep.get('case', {}).get('scenario') == 'reload':
+        pye()
+        return common.scenario_replay(ctx, rep, {'reload': reload_scenarios})
+    return _replay_main(ctx, rep)
